@@ -525,6 +525,9 @@ func apply(c cur, s Step) (out cur, why string, ptrOnTemp bool) {
 			}
 			return cur{e, false}, "", false
 		}
+		if c.v.Kind() == reflect.String && a.Int {
+			return c, "unspec:index-into-string", false // Go yields a byte here; the statement does not say what plush should print
+		}
 		return c, "not-indexable", false
 	case s.M != "":
 		if c.v.Kind() == reflect.Ptr && c.v.IsNil() {
@@ -681,11 +684,67 @@ var knownOpen = map[string]bool{
 	"clean-failure/three-indexed-levels-similar-names": true,
 	"clean-failure/call-call-index":                    true,
 	"clean-failure/for-over-chained-calls":             true,
-	"panic/negative-index":                             true,
-	"panic/method-on-nil-pointer":                      true,
 }
 
-func isOpen(r *vk.Run, class string) bool { return knownOpen[class] || r.OpenClass(class) }
+// strictMode: no class is tolerated (used only while the witnesses below are
+// replayed, sequentially, before any parallel phase).
+var strictMode bool
+
+func isOpen(r *vk.Run, class string) bool {
+	return !strictMode && (knownOpen[class] || r.OpenClass(class))
+}
+
+func st(f string) Step                 { return Step{F: f} }
+func call(m string, a ...Arg) Step     { return Step{M: m, A: a} }
+func at(a Arg) Step                    { return Step{X: true, A: []Arg{a}} }
+func lit(i int) Arg                    { return Arg{Int: true, I: i} }
+func key(s string) Arg                 { return Arg{S: s} }
+func vr(a Arg) Arg                     { a.Var = true; return a }
+func path(root string, s ...Step) Case { return Case{Root: root, Steps: s} }
+
+// witnesses: one minimal case per class; replayed at the start of every run,
+// reported as KNOWN-FINDING while it still fails.
+var witnesses = []struct {
+	class, what string
+	c           Case
+}{
+	{"wrong-value/fields-dropped-before-call", "x.A().F.B() is evaluated as x.A().B(): fields between a call (or an indexed variable) and a later call are dropped (parser assignCallee overwrites the call's callee)",
+		path("r", call("GetMid"), st("Leaf"), call("Hello"))},
+	{"wrong-value/unknown-method-on-pointer", "calling an unknown method on a pointer returns the pointer itself instead of failing",
+		Case{Root: "r", Ptr: true, Steps: []Step{call("Nope"), st("Mid"), st("Name")}, Cuts: []Cut{{At: 1, V: "x"}}}},
+	{"clean-failure/index-then-method", "a[i].M() / a[i].F.M() with a dotted a fails with 'unknown identifier' (AF-22)",
+		path("r", st("Mids"), at(lit(1)), call("Hello"))},
+	{"clean-failure/three-indexed-levels-similar-names", "r.M[k].M[k].M[k] fails with 'unknown identifier' or renders nothing (AF-22)",
+		path("r", st("M"), at(key("a")), st("M"), at(key("a")), st("M"), at(key("a")))},
+	{"clean-failure/call-call-index", "x.A().B()[i] is rejected: 'invalid nested index access'",
+		path("r", call("GetMid"), call("GetM"), at(key("a")), st("Name"))},
+	{"clean-failure/for-over-chained-calls", "for (k, v) in x.A().B() { does not parse: the chained call swallows the block",
+		Case{Root: "r", Steps: []Step{call("GetMid"), call("GetM"), at(key("a")), st("Name")}, Cuts: []Cut{{At: 2, For: true, V: "e"}}}},
+	{"panic/negative-index", "a negative index held in a variable panics in reflect (AF-19)",
+		path("r", st("Mids"), at(vr(lit(-1))), st("Name"))},
+	{"panic/method-on-nil-pointer", "a method call on a nil pointer / nil callee panics in reflect (AF-19)",
+		path("r", st("NilMid"), call("Hello"))},
+}
+
+func replayWitnesses(r *vk.Run) {
+	strictMode = true
+	defer func() { strictMode = false }()
+	for _, w := range witnesses {
+		if !knownOpen[w.class] && !r.OpenClass(w.class) {
+			// not (or no longer) listed as open: the witness is an ordinary regression case
+			strictMode = true
+		}
+		f := checkCase(r, w.c)
+		switch {
+		case f != nil && (knownOpen[w.class] || r.OpenClass(w.class)):
+			fmt.Printf("KNOWN-FINDING: property=C11 class=%s %s; witness %s\n", w.class, w.what, w.c.template())
+		case f != nil:
+			r.Violation(f)
+		case knownOpen[w.class]:
+			fmt.Printf("NOTE: class %s is listed in knownOpen but its witness %s now passes\n", w.class, w.c.template())
+		}
+	}
+}
 
 func segSig(seg []Step) string {
 	b := make([]byte, len(seg))
@@ -861,6 +920,9 @@ type stats struct {
 var shapeStats = stats{m: map[string]*[5]int64{}}
 
 func (s *stats) add(sig string, k int) {
+	if strictMode {
+		return // witness replays are not part of the exploration
+	}
 	s.mu.Lock()
 	e := s.m[sig]
 	if e == nil {
@@ -1563,7 +1625,7 @@ func usages(steps []Step, letName string) []usage {
 	return out
 }
 
-const rule = "data: Root/Mid/Leaf graphs (value and pointer fields, nil pointers, slices, arrays, map[string], map[int], slices/maps of pointers with nil elements, interface-typed fields, value- and pointer-receiver methods with 0-2 arguments returning strings, structs, pointers, slices and maps; the field names Name, Arr, M, IM, Any repeat at all three depths) in 2 recipes x root passed as Root or *Root; every leaf string spells its own Go path with [A-Za-z0-9_.\\[\\]()] only. Paths: walks over the TYPE graph by reflection (field, index/key, method-call steps; literal and context-variable indexes, keys and arguments), (E) every walk of <= L steps (quick 3 + every 5th of length 4, thorough 4) that ends at a string or at a deliberately broken step (missing key, index = len or beyond, negative index, wrong key type, unknown / unexported member, field called as method, indexing a struct; nil pointers come from the data), (R) random walks of up to 7 steps with random root and variable names. Each path is used in <%= %> (once, and twice in a row), behind `let v = prefix` at every position, and as a `for (kk, v) in prefix` iterable at every index step (the rest continues from the loop variable), also let+for combined. Reference: a reflection walk of the same steps over a fresh copy of the same data. Verdict: completable => output == the leaf's spelled path; not completable => error or empty output; panic or any other text => violation. Non-trivial = broken path, or completable path of >= 3 steps containing an index, a method call or a cut; distinct by (recipe, root form, names, steps, cuts)."
+const rule = "data: Root/Mid/Leaf/Inner graphs (value and pointer fields, nil pointers, slices, arrays, map[string], map[int], slices/maps of pointers with nil elements, interface-typed fields, value- and pointer-receiver methods with 0-2 arguments returning strings, structs, pointers, nil, slices and maps; the member names Name, Arr, M, IM, Any, Hello repeat at every depth) in 2 recipes x root passed as Root or *Root; every leaf string spells its own Go path with [A-Za-z0-9_.,()\\[\\]] only (keys and arguments unquoted). Paths: walks over the TYPE graph by reflection (field, index/key, method-call steps; literal and context-variable indexes, keys and arguments): (E1) every walk of <= L steps (quick: 3, plus every 5th walk of 4 steps; thorough: 4) that ends at a string or at a deliberately broken step (missing key, index = len and beyond, negative index, wrong key type, unknown / unexported member, field called as method, indexing a struct; nil pointers and short slices come from the data); (E2) two and three INDEXED levels r.C1[i].C2[j].C3[k] over every combination of collection-valued members; (R) random walks of up to 7+ steps with random root and variable names (names that collide with member names included). Each path is placed in <%= %> (once, and twice in a row), behind `let v = prefix` at every position, and as a `for (kk, v) in prefix` iterable at every index step (the rest continues from the loop variable; every element is checked), also let+for combined. Reference: a reflection walk of the same steps over a separate copy of the same data. Verdict per path: completable => output == the leaf's spelled path; not completable => error or empty output; a panic or any other text => violation; a clean failure of a completable path is a violation unless its shape is a listed open class. Non-trivial = broken path, or completable path of >= 3 steps containing an index, a method call or a cut; distinct by (recipe, root form, names, steps, cuts, twice)."
 
 func setup(t *testing.T) *vk.Run {
 	r := vk.Start(t, "C11", rule,
@@ -1594,6 +1656,7 @@ func TestProp(t *testing.T) {
 	r := setup(t)
 	defer r.Finish()
 	r.ReplayCommitted()
+	replayWitnesses(r)
 
 	// (E) exhaustive walks
 	t0 := time.Now()
@@ -1650,7 +1713,7 @@ func TestProp(t *testing.T) {
 		c := Case{Variant: int(k.v), Ptr: (int(k.path)+int(k.v))%2 == 1, Root: "r", Steps: paths[k.path].steps, Cuts: k.u.cuts, Twice: k.u.twice}
 		r.Check(checkCase(r, c))
 	})
-	r.Subspace(fmt.Sprintf("all type-graph walks of <= %d steps ending at a leaf or a broken step, literal x variable indexes (%d paths) x usages (emit once/twice, let at each position, for at each index step, let+for) x 2 data recipes", L, full), nwalkCases, true)
+	r.Subspace(fmt.Sprintf("all type-graph walks of <= %d steps (%d paths; the quick tier adds every 5th walk of 4 steps) ending at a leaf or a broken step, literal x variable indexes, x usages (emit once/twice, let at each position, for at each index step, let+for) x 2 data recipes", L, full), nwalkCases, true)
 	r.Subspace(fmt.Sprintf("paths with 2 or 3 indexed levels r.C1[i].C2[j].C3[k] and r.C1[i].C2[j].tail over every combination of collection-valued members x 2 index choices x 4 literal/variable patterns (%d paths; the quick tier takes every 3rd) x usages x 2 data recipes", ndeep), ncases-nwalkCases, r.Thorough())
 
 	if debug {
@@ -1673,7 +1736,7 @@ func genCase(t *rapid.T) Case {
 		Ptr:     rapid.Bool().Draw(t, "ptr"),
 		Root:    rapid.SampledFrom(rootNames).Draw(t, "root"),
 	}
-	n := rapid.IntRange(1, 7).Draw(t, "len")
+	n := rapid.SampledFrom([]int{2, 3, 4, 4, 5, 5, 6, 6, 7, 7}).Draw(t, "len")
 	ty := tRoot
 	broken := false
 	for len(c.Steps) < 9 {
@@ -1758,7 +1821,10 @@ func dumpShapes(r *vk.Run) {
 			cleanSigs[sig] = e[1]
 		}
 	}
-	r.Extra("verdicts", map[string]int64{"exact": exact, "clean_failure_on_completable": clean, "failed_cleanly_as_required_or_allowed": failedOK, "wrong_or_panic": bad})
+	r.Extra("verdict_exact", exact)
+	r.Extra("verdict_clean_failure_of_completable_path", clean)
+	r.Extra("verdict_failed_cleanly_as_required_or_allowed", failedOK)
+	r.Extra("verdict_wrong_value_or_panic", bad)
 	if debug {
 		var cats []string
 		for k := range bads {
